@@ -449,6 +449,30 @@ def run(rep, tier, seed):
             which = e["args"][1] if e["op"] == "discarding" else e["op"]
             rep.violation(f"{PID}:{which}:{cl}", f"TLC rejected event {rj['event']} ({e['op']} {e['args']}) of EML trace {rj['trace']}: {rj['clauses']}",
                           {"kind": "eml-trace", "seed_index": rj["trace"] - 1, "event": e["op"], "args": e["args"]})
+    # large instances: lineages far deeper and fans far wider than any bounded model; TLC judges (Steps!DeleteF, ReplaceChildF)
+    big = []
+    for shape, size in (("chain", 120), ("chain", 520), ("chain", 700), ("fan", 600), ("comb", 400)):
+        Node.store.clear()
+        kids = [[] for _ in range(size + 1)]
+        for i in range(2, size + 1):
+            par = i - 1 if shape == "chain" else (1 if shape == "fan" else (i - 2 if i % 2 == 1 and i > 2 else i - 1))
+            kids[par - 1].append(i)
+        w = World.build({"name": ["a"] * (size + 1), "kids": kids})      # node size+1: a spare single node
+        tr = {"init": slim(w.pi(all_fields())), "events": [], "desc": {"shape": shape, "nodes": size}}
+        # replace the second node (with everything below it) by the spare node, deleting it; then delete what is left of the tree
+        for name, args in (("replace_child", [1, 2, size + 1, True]), ("delete", [1, True])):
+            ok, ret, exc = w.apply(name, args)
+            tr["events"].append({"op": name, "args": args, "ok": ok, "ret": ret if isinstance(ret, int) else 0, "post": slim(w.pi(all_fields()))})
+        big.append(tr)
+    Node.store.clear()
+    rejects, _ = judge_traces([{"init": t["init"], "events": t["events"]} for t in big], PID, label="large", timeout=3000)
+    rep.cov["traces_validated_against_impl"] += len(big)
+    for rj in rejects:
+        tr = big[rj["trace"] - 1]
+        e = tr["events"][rj["event"] - 1]
+        rep.violation(f"{PID}:{e['op']}:large:{','.join(sorted(rj['clauses']))}", f"{e['op']} {e['args']} on a {tr['desc']} tree: clauses {rj['clauses']}",
+                      {"kind": "large", "desc": tr["desc"], "event": rj["event"], "clauses": rj["clauses"]})
+    rep.notes["large_instances"] = [t["desc"] for t in big]
     from harness import suite
     suite.run_for(rep, "C14")
     rep.cov["evaluations"] = nT + cnt + sum(len(t["events"]) for t in traces)
